@@ -152,6 +152,10 @@ def check(ctx):
     for ty in ("sign::CoseSignature", "sign::CoseSign", "sign::CoseSign1", "encrypt::CoseRecipient", "encrypt::CoseEncrypt",
                "encrypt::CoseEncrypt0", "mac::CoseMac", "mac::CoseMac0"):
         c07._array_pair(ctx.under("R-6", "codec"), ty)
+    # ... and the header map a built protected header contributes is what the header encoder emits, which raises no error of its
+    # own except a genuine duplicate (C11's recogniser): a creator helper `expect`s that encoding
+    from rules.c11 import check_map_encoder, HEADER_EMIT, HEADER_EXTRAS
+    check_map_encoder(ctx.under("R-6", "header-encoder"), "header::Header", HEADER_EMIT, HEADER_EXTRAS)
     # R-5
     statics = prog.d.get("statics", [])
     ctx.ob("R-5", "no-statics", not statics, "the crate defines no static items", detail={"statics": statics})
